@@ -155,6 +155,17 @@ func (c *Ctx) HasKey(key string) bool {
 	return ok
 }
 
+// Describe lists the recorded violations (key and text).
+func (c *Ctx) Describe() []string {
+	c.mu.Lock()
+	defer c.mu.Unlock()
+	var out []string
+	for _, k := range c.violOrder {
+		out = append(out, "  "+k+": "+c.viol[k].What)
+	}
+	return out
+}
+
 func (c *Ctx) NumViolations() int { c.mu.Lock(); defer c.mu.Unlock(); return len(c.viol) }
 
 // Finish writes the evidence file, prints the result lines and returns the exit code.
